@@ -16,6 +16,8 @@ THEOREMS = [
     "Aio.C07.attempts_counted",
     "Aio.C07.no_leak",
     "Aio.C07.close_closes_all",
+    "Aio.C07.release_waiter_wakes",
+    "Aio.C07.no_forgotten_waiter_partial",
     "Aio.C07.f7_limit_exceeded_unfixed",
     "Aio.C07.f8_lost_wakeup_unfixed",
     "Aio.C07.race_lost_wakeup_unfixed",
@@ -38,7 +40,10 @@ TRUSTED_BASE = [
 ASSUMPTIONS = [
     "theorems are about the model with the four repairs switched on (Fixes.all); for the code as it is (Fixes.none) the "
     "deviations are kernel-checked counterexamples and the direct oracle reports them on the real connector",
-    "no_forgotten_waiter is proved for limit_per_host = 0 only (see AioProps/C07.lean)",
+    "no_forgotten_waiter (global quiescence form) is NOT proved; proved instead: the wake-up step (release_waiter_wakes, "
+    "no_forgotten_waiter_partial) for every state; the rest is covered by correspondence + exhaustive small-scope exploration",
+    "limit_inv bounds the connector's own counters; that every handed-out open connection is in _acquired is shown only for "
+    "connection attempts (attempts_counted) — for established connections it is checked by the direct oracle's harness-side count",
 ]
 
 FINISHED = set("dXTEQ")
@@ -378,7 +383,7 @@ def check(ctx):
         for limit, lph, keys in scopes:
             nk = max(keys) + 1
             perms = list(itertools.permutations(range(nk))) if nk > 1 else []
-            ns, ne, done = explore(ctx, fx, limit, lph, keys, perms, budget, max_states=6000)
+            ns, ne, done = explore(ctx, fx, limit, lph, keys, perms, budget, max_states=12000)
             tot_s += ns; tot_e += ne
             complete = complete and done
             ctx.hit("explore:" + ("complete" if done else "truncated"))
